@@ -80,6 +80,48 @@ Fixpoint realize (root : path) (c : change) : change :=
                         match l with [] => [] | c :: r => realize root c :: go r end) cs)
   end.
 
+(* ------------------------------------------------------------------------------ symbolic links *)
+(* [(l, t)]: the disk path l is a symbolic link to the disk path t.  Link nodes are not part of the tree
+   ([fs] has files and folders only); what the model knows about them: open(p, "wb") on a path on or below
+   a link acts on the target ([follow]); rope's is_ignored says True for a link
+   (_ResourceMatcher.does_match: os.path.islink).  Moving / removing / creating a link itself is outside the
+   model (the harness does not send such cases). *)
+Notation links := (list (path * path)) (only parsing).
+
+Fixpoint follow (ls : links) (p : path) : path :=
+  match ls with
+  | [] => p
+  | (l, t) :: r => match strip l p with Some rest => t ++ rest | None => follow r p end
+  end.
+
+Definition on_link (ls : links) (p : path) : bool := existsb (fun lt => is_prefix (fst lt) p) ls.
+
+(* the link part of Project.is_ignored (the pattern part is not modelled) *)
+Definition ignored_link (root : path) (ls : links) (p : path) : bool := on_link ls (real_path root p).
+
+Definition no_link_edits (root : path) (ls : links) (c : change) : bool :=
+  forallb (fun p => negb (ignored_link root ls p)) (resources c).
+
+Fixpoint realize_l (root : path) (ls : links) (c : change) : change :=
+  match c with
+  | CC p n o => CC (follow ls (real_path root p)) n o
+  | MV p q b => MV (real_path root p) (real_path root q) b
+  | CR p b => CR (real_path root p) b
+  | RM p b => RM (real_path root p) b
+  | CS t cs => CS t ((fix go (l : list change) : list change :=
+                        match l with [] => [] | c :: r => realize_l root ls c :: go r end) cs)
+  end.
+
+(* ------------------------------------------------------------------------------- descriptions *)
+(* ChangeContents.get_description diffs [desc_old] against new_contents: the recorded old contents, else
+   what the file holds now, else "" *)
+Definition desc_old (c : change) (m : fs) : content :=
+  match c with
+  | CC p _ (Some o) => o
+  | CC p _ None => match p_read p m with Some o => o | None => [] end
+  | _ => []
+  end.
+
 (* -------------------------------------------------------------------------------------- traces *)
 Inductive event :=
 | EvRead (p : path)                  (* FileSystemCommands.read:   open(p, "rb") *)
